@@ -585,5 +585,64 @@ def genesis (l : Ledger) : Except LErr Ledger :=
                      burned := 0, proposer := none, epochChanged := false }
   if invB l1 then .ok l1 else .error .fatal
 
+/-! ### Histories: blocks of operations -/
+
+/-- What can happen between BeginBlock and EndBlock: transactions, and the state movers other
+applications call (roothash slashing and rewards, scheduler rewards, governance deposits). -/
+inductive Op where
+  | tx (signer nonce fee : Nat) (body : TxBody)
+  | slash (a amount : Nat)
+  | transferFromCommon (dst amount : Nat) (escrow : Bool)
+  | addRewards (epoch factor : Nat) (addrs : List Nat)
+  | govDeposit (src amount : Nat)
+  | govRefund (dst amount : Nat)
+  | govDiscard (amount : Nat)
+  deriving Repr
+
+def keep (l : Ledger) : Except LErr Ledger → Ledger
+  | .ok l' => l'
+  | .error _ => l
+
+/-- Persisted ledger after one operation; an operation that fails leaves the ledger unchanged
+(a transaction: apart from fee and nonce). -/
+def applyOp (l : Ledger) : Op → Ledger
+  | .tx s n f b => (applyTx l s n f b).1
+  | .slash a amt => keep l (slashEscrowL l a amt)
+  | .transferFromCommon d amt e => keep l (transferFromCommon l d amt e)
+  | .addRewards ep f as => keep l (addRewards l ep f as)
+  | .govDeposit s amt => keep l (govDeposit l s amt)
+  | .govRefund d amt => keep l (govRefund l d amt)
+  | .govDiscard amt => keep l (govDiscard l amt)
+
+structure Block where
+  newEpoch : Option Nat := none      -- the beacon announces an epoch transition in this block
+  proposer : Option Nat := none      -- proposer's entity (none: not resolvable)
+  numEligible : Nat := 0             -- size of the validator set of the last commit
+  voters : List Nat := []            -- entities of the validators that signed the last block
+  evidence : List Nat := []          -- validators with misbehaviour evidence
+  ops : List Op := []
+  deriving Repr
+
+def startBlock (l : Ledger) : Option Nat → Ledger
+  | some e => setEpoch l e
+  | none => l
+
+/-- One block; `none` when BeginBlock or EndBlock fails — consensus halts, nothing is committed. -/
+def runBlock (l : Ledger) (b : Block) : Option Ledger :=
+  let l0 := startBlock l b.newEpoch
+  match beginBlock l0 b.proposer b.numEligible b.voters b.evidence with
+  | .error _ => none
+  | .ok l1 =>
+    match endBlock (b.ops.foldl applyOp l1) with
+    | .error _ => none
+    | .ok l2 => some l2
+
+/-- A chain of blocks from a given ledger (stops at a halting block). -/
+def runChain (l : Ledger) : List Block → Ledger
+  | [] => l
+  | b :: bs => match runBlock l b with
+    | none => l
+    | some l' => runChain l' bs
+
 end Ledger
 end OasisModel.Staking
